@@ -147,6 +147,9 @@ type rewriter struct {
 	rangeK  map[*ast.RangeStmt]string // "map" | "chan"
 	lhs     map[ast.Expr]bool         // expressions in write position
 	noinstr map[ast.Expr]bool         // selector expressions that must not be wrapped (e.g. operand of &, method values)
+	elemLoc map[ast.Node]string       // slice element accesses (index expressions, range statements, calls): location label
+	elemWr  map[ast.Node]bool         // index expressions in write position
+	elemOp  map[*ast.CallExpr]string  // calls that read / write slice elements: "copy", "append", "wr", "rd"
 	fn      string                    // enclosing function name
 	tmp     int
 }
@@ -180,7 +183,8 @@ func rewritePackage(fset *token.FileSet, imp types.Importer, dir, out string, ac
 		for i, f := range files {
 			r := &rewriter{fset: fset, info: info, pkg: tpkg, dir: dir, access: access, tracees: tracees,
 				skip: map[ast.Node]bool{}, recv2: map[ast.Node]bool{}, rangeK: map[*ast.RangeStmt]string{},
-				lhs: map[ast.Expr]bool{}, noinstr: map[ast.Expr]bool{}}
+				lhs: map[ast.Expr]bool{}, noinstr: map[ast.Expr]bool{},
+				elemLoc: map[ast.Node]string{}, elemWr: map[ast.Node]bool{}, elemOp: map[*ast.CallExpr]string{}}
 			r.file(f)
 			var buf bytes.Buffer
 			if err := format.Node(&buf, fset, f); err != nil {
@@ -407,6 +411,11 @@ func (r *rewriter) pre(c *astutil.Cursor) bool {
 			if r.isBuiltin(n.Fun, "delete") && len(n.Args) == 2 {
 				r.markWrite(n.Args[0])
 			}
+			r.preElemCall(n)
+		}
+	case *ast.IndexExpr:
+		if r.access && r.elemLoc[n] == "" && r.isSlice(n.X) {
+			r.elemLoc[n] = r.sliceLoc(n.X)
 		}
 	case *ast.RangeStmt:
 		if t := r.typeOf(n.X); t != nil {
@@ -416,6 +425,9 @@ func (r *rewriter) pre(c *astutil.Cursor) bool {
 			case *types.Chan:
 				r.rangeK[n] = "chan"
 			}
+		}
+		if r.access && r.isSlice(n.X) {
+			r.elemLoc[n] = r.sliceLoc(n.X)
 		}
 		if r.access {
 			if n.Key != nil {
@@ -443,6 +455,9 @@ func (r *rewriter) markWrite(e ast.Expr) {
 			if _, ok := t.Underlying().(*types.Map); ok {
 				r.markWrite(x.X)
 			}
+			if _, ok := t.Underlying().(*types.Slice); ok {
+				r.elemWr[x] = true
+			}
 		}
 	case *ast.StarExpr:
 	}
@@ -455,6 +470,7 @@ func (r *rewriter) markNoInstr(e ast.Expr) {
 		r.noinstr[x] = true
 	case *ast.IndexExpr:
 		r.markNoInstr(x.X)
+		r.elemLoc[x] = "-"
 	case *ast.CompositeLit:
 	}
 }
@@ -481,9 +497,23 @@ func (r *rewriter) post(c *astutil.Cursor) bool {
 		if r.isBuiltin(n.Fun, "close") && len(n.Args) == 1 {
 			c.Replace(call(r.rt("Close"), n.Args[0]))
 		}
+		if op := r.elemOp[n]; op != "" {
+			r.postElemCall(n, op)
+		}
+	case *ast.IndexExpr:
+		if loc := r.elemLoc[n]; loc != "" && loc != "-" {
+			fn := "Rd"
+			if r.elemWr[n] {
+				fn = "Wr"
+			}
+			c.Replace(&ast.ParenExpr{X: &ast.StarExpr{X: call(r.rt(fn), &ast.UnaryExpr{Op: token.AND, X: n}, str(loc))}})
+		}
 	case *ast.SelectStmt:
 		c.Replace(r.selectStmt(n))
 	case *ast.RangeStmt:
+		if loc := r.elemLoc[n]; loc != "" {
+			n.X = call(r.rt("RdElems"), n.X, str(loc))
+		}
 		switch r.rangeK[n] {
 		case "map":
 			if _, labeled := c.Parent().(*ast.LabeledStmt); labeled {
@@ -684,6 +714,106 @@ func (r *rewriter) rangeChan(n *ast.RangeStmt) ast.Stmt {
 	return &ast.BlockStmt{List: []ast.Stmt{
 		&ast.AssignStmt{Lhs: []ast.Expr{id(cv)}, Tok: token.DEFINE, Rhs: []ast.Expr{n.X}},
 		&ast.ForStmt{Body: &ast.BlockStmt{List: append(body, n.Body.List...)}}}}
+}
+
+func (r *rewriter) isSlice(e ast.Expr) bool {
+	if t := r.typeOf(e); t != nil {
+		_, ok := t.Underlying().(*types.Slice)
+		return ok
+	}
+	return false
+}
+
+// sliceLoc names the elements of a slice expression: "T.f[]" for a field, else the slice type.
+func (r *rewriter) sliceLoc(e ast.Expr) string {
+	e = unparen(e)
+	if se, ok := e.(*ast.SliceExpr); ok {
+		return r.sliceLoc(se.X)
+	}
+	if sel, ok := e.(*ast.SelectorExpr); ok {
+		if s, ok := r.info.Selections[sel]; ok && s.Kind() == types.FieldVal {
+			recv := s.Recv()
+			if p, ok := recv.(*types.Pointer); ok {
+				recv = p.Elem()
+			}
+			if nt, ok := recv.(*types.Named); ok {
+				return nt.Obj().Name() + "." + s.Obj().Name() + "[]"
+			}
+		}
+	}
+	if t := r.typeOf(e); t != nil {
+		return types.TypeString(t, func(p *types.Package) string { return p.Name() }) + " elements"
+	}
+	return "slice elements"
+}
+
+// simple: evaluating the expression twice has no side effects and costs nothing
+func simpleExpr(e ast.Expr) bool {
+	switch x := unparen(e).(type) {
+	case *ast.Ident:
+		return true
+	case *ast.SelectorExpr:
+		return simpleExpr(x.X)
+	case *ast.BasicLit:
+		return true
+	}
+	return false
+}
+
+var sliceWriters = map[string]bool{"slices.Sort": true, "slices.SortFunc": true, "slices.SortStableFunc": true, "slices.Reverse": true,
+	"slices.Compact": true, "slices.CompactFunc": true, "slices.Delete": true, "slices.DeleteFunc": true, "slices.Insert": true, "slices.Replace": true,
+	"sort.Slice": true, "sort.SliceStable": true, "sort.Strings": true, "sort.Ints": true, "sort.Float64s": true}
+
+// preElemCall classifies calls that read or write the elements of a slice argument: the builtins copy and
+// append, and the functions of the standard packages slices and sort.
+func (r *rewriter) preElemCall(n *ast.CallExpr) {
+	switch {
+	case r.isBuiltin(n.Fun, "copy") && len(n.Args) == 2 && r.isSlice(n.Args[0]) && simpleExpr(n.Args[1]):
+		r.elemOp[n] = "copy"
+		r.elemLoc[n] = r.sliceLoc(n.Args[0])
+	case r.isBuiltin(n.Fun, "append") && len(n.Args) >= 1 && r.isSlice(n.Args[0]):
+		if n.Ellipsis.IsValid() && !(len(n.Args) == 2 && simpleExpr(n.Args[1])) {
+			return
+		}
+		r.elemOp[n] = "append"
+		r.elemLoc[n] = r.sliceLoc(n.Args[0])
+	default:
+		sel, ok := unparen(n.Fun).(*ast.SelectorExpr)
+		if ix, isIx := unparen(n.Fun).(*ast.IndexExpr); isIx {
+			sel, ok = unparen(ix.X).(*ast.SelectorExpr)
+		}
+		if !ok || len(n.Args) == 0 || !r.isSlice(n.Args[0]) {
+			return
+		}
+		fn, ok := r.info.Uses[sel.Sel].(*types.Func)
+		if !ok || fn.Pkg() == nil || (fn.Pkg().Path() != "slices" && fn.Pkg().Path() != "sort") {
+			return
+		}
+		if sliceWriters[fn.Pkg().Path()+"."+fn.Name()] {
+			r.elemOp[n] = "wr"
+		} else {
+			r.elemOp[n] = "rd"
+		}
+		r.elemLoc[n] = r.sliceLoc(n.Args[0])
+	}
+}
+
+func (r *rewriter) postElemCall(n *ast.CallExpr, op string) {
+	loc := str(r.elemLoc[n])
+	switch op {
+	case "copy":
+		n.Args[0] = call(r.rt("WrElemsN"), n.Args[0], call(id("len"), n.Args[1]), loc)
+	case "append":
+		var cnt ast.Expr = &ast.BasicLit{Kind: token.INT, Value: fmt.Sprint(len(n.Args) - 1)}
+		if n.Ellipsis.IsValid() {
+			cnt = call(id("len"), n.Args[1])
+		}
+		n.Args[0] = call(r.rt("AppElems"), n.Args[0], cnt, loc)
+	case "wr":
+		n.Args[0] = call(r.rt("WrElems"), n.Args[0], loc)
+	case "rd":
+		n.Args[0] = call(r.rt("RdElems"), n.Args[0], loc)
+	}
 }
 
 // accessSel wraps a struct-field selector x.f (field of a struct type declared in this module)
